@@ -7,7 +7,7 @@ from hgv import gen
 from hgv import tsmodel as tm
 from hgv.runner import Result, Viol
 from hgv.trace import Trace
-from hgv.worker import HarnessError
+from hgv.worker import HarnessError, Rejected
 from props.c08 import _dict_script, _set_script
 
 ID = "C13"
@@ -98,7 +98,7 @@ def check(case, ctx) -> Result:
             res.labels.append("nested_passthrough_rejected")
             res.summary = {"error": str(err)[:200]}
             return res
-        raise HarnessError(f"C13 generator produced a program the tree rejects: {err}")
+        raise Rejected(f"C13 generator produced a program the tree rejects: {err}")
     if resp.get("error"):
         res.violations.append(Viol("run_failed", f"run threw: {resp['error']}"))
         return res
